@@ -5,7 +5,7 @@
 (* transition = history of the representative state + the run.                               *)
 EXTENDS DeltaOps, Json
 
-CONSTANTS Branches,     \* git branches, e.g. {"b1","b2"}
+CONSTANTS Branches,     \* git branches, e.g. {"main","rel"} (not "b1": go-git resolves hex-like names as abbreviated object ids)
           Paths,        \* e.g. {"a.txt","d/b.txt"}
           Contents,     \* content ids, e.g. {1,2}
           BranchLists,  \* branch lists an indexing run may ask for (sequences over Branches)
@@ -18,8 +18,8 @@ CONSTANTS Branches,     \* git branches, e.g. {"b1","b2"}
           Emit
 
 \* values for the structured constants (cfg files can only write sets of simple values)
-BL_One == {<<"b1", "b2">>}
-BL_Var == {<<"b1", "b2">>, <<"b2", "b1">>, <<"b1">>}
+BL_One == {<<"main", "rel">>}
+BL_Var == {<<"main", "rel">>, <<"rel", "main">>, <<"main">>}
 Ig_None == [path |-> "", sem |-> <<>>]
 \* ignore file content 1 = a comment (excludes nothing), content 2 = "d/" (excludes d/b.txt)
 Ig_Dir == [path |-> ".sourcegraph/ignore", sem |-> << <<>>, <<"d/b.txt">> >>]
